@@ -39,6 +39,15 @@ FIXED_PROBES = [
     "<mo>+</mo><msubsup><mo>&#x222B;</mo><mn>0</mn><mn>1</mn></msubsup><mi>f</mi><mo>(</mo><mi>x</mi><mo>)</mo><mi>d</mi><mi>x</mi></math>",
 ]
 
+# probes that depend on the definition files (function names without an explicit function application, large operators, number words,
+# unit names, comparison operators and currency signs used by the braille codes); kept when the clean session answers all calls
+OPTIONAL_PROBES = [
+    "<math><mi>sin</mi><mi>y</mi><mo>+</mo><mi>log</mi><mi>x</mi><mo>+</mo><mi>arcsin</mi><mi>z</mi></math>",
+    "<math><munderover><mo>&#x2211;</mo><mrow><mi>i</mi><mo>=</mo><mn>1</mn></mrow><mi>n</mi></munderover><msup><mi>i</mi><mn>23</mn></msup>"
+    "<mo>&#x2264;</mo><mfrac><mn>5</mn><mn>32</mn></mfrac></math>",
+    "<math><mn>3</mn><mo>&#x2062;</mo><mi intent=':unit'>km</mi><mo>+</mo><mn>2</mn><mo>&#x2062;</mo><mi intent=':unit'>ft</mi><mo>=</mo><mo>$</mo><mn>5</mn></math>",
+]
+
 PER_EXPR = [("get_spoken_text",), ("get_overview_text",), ("get_braille", ""), ("do_navigate_command", "ZoomIn"),
             ("do_navigate_command", "MoveNext"), ("get_navigation_braille",), ("get_navigation_mathml",)]
 
@@ -363,6 +372,57 @@ def hook_files(summary):
     return {f: sorted(set(r), key=r.index) for f, r in roles.items()}
 
 
+RX_INCLUDE = re.compile(r"""^\s*-\s*include\s*:\s*(?:"([^"\n]+)"|'([^'\n]+)'|([^\s#'"][^#\n]*?))\s*(?:#.*)?$""")
+
+
+def include_closure(rules_dir, head_rel):
+    """the head file and every file it reaches through '- include:' items, read from the YAML text of the pristine tree
+    (independent of the library's own list of tracked files, which is part of what is being checked)"""
+    out, todo = [], [head_rel]
+    while todo:
+        rel = todo.pop(0)
+        if rel in out:
+            continue
+        path = os.path.join(rules_dir, rel)
+        if not os.path.isfile(path):
+            continue
+        out.append(rel)
+        try:
+            with open(path, encoding="utf-8") as f:
+                for ln in f:
+                    m = RX_INCLUDE.match(ln)
+                    if m:
+                        inc = next(g for g in m.groups() if g is not None).strip()
+                        tgt = os.path.normpath(os.path.join(os.path.dirname(path), inc))
+                        r = rel_to(tgt, rules_dir)
+                        if r != tgt:                    # stays inside the rules directory
+                            todo.append(r)
+        except (OSError, UnicodeDecodeError):
+            pass
+    return out
+
+
+def reached_files(summary, rules_dir):
+    """{relative file: [roles]}: union of what the hook lists as loaded and what the files selected by the preferences include
+    according to their text; second value: files that are included but that the library does not list as tracked"""
+    roles = hook_files(summary)
+    untracked = []
+    for tname, t in summary.items():
+        side = "braille" if tname == "Braille" else "speech"
+        heads = [(t["pref_rule_file"], tname.lower() + "-rules", tname.lower() + "-include", "rule_files"),
+                 (t["pref_unicode_short"], side + "-unicode", side + "-unicode-include", "unicode_short_files"),
+                 (t["pref_unicode_full"], side + "-unicode-full", side + "-unicode-full-include", "unicode_full_files"),
+                 (t["pref_definitions"], side + "-defs", side + "-defs-include", "definitions_files")]
+        for head, head_role, inc_role, key in heads:
+            for i, f in enumerate(include_closure(rules_dir, head)):
+                role = head_role if i == 0 else inc_role
+                if role not in roles.setdefault(f, []):
+                    roles[f].append(role)
+                if t[key] and f not in t[key] and "%s (%s)" % (f, role) not in untracked:
+                    untracked.append("%s (%s)" % (f, role))
+    return roles, untracked
+
+
 def consistent(summary):
     """hook invariant for a session whose calls all succeeded: every non-empty table was loaded from the file the preferences select"""
     bad = []
@@ -463,6 +523,12 @@ def discover(cfg, rules_dir):
         if bad is not None:
             raise core.Inconclusive("clean run fails for %s at %s: %s" % (cfg_name(cfg), ops0[bad][:1], json.dumps(res[bad])[:300]))
         summ = hook_summary(hook, rules_dir)
+        optional = []
+        for e in OPTIONAL_PROBES:
+            pops = probe_ops([e])
+            r = d.batch(pops)
+            if all(x["r"] == "ok" for x in r):
+                optional.append(e)
         # probe characters: early / middle / late entries of each Unicode file (a truncated table must change a probe output)
         chars = []
         sentinel = None
@@ -500,7 +566,7 @@ def discover(cfg, rules_dir):
                             if all(x["r"] == "ok" for x in r) and ch in r[0]["v"]:
                                 chars.append(ch)
                                 break
-    exprs = list(FIXED_PROBES)
+    exprs = list(FIXED_PROBES) + optional
     for i in range(0, len(chars), 4):
         exprs.append("<math>" + "<mo>,</mo>".join("<mi>%s</mi>" % mml.esc(c) for c in chars[i:i + 4]) + "</math>")
     ops = init_ops(cfg, rules_dir) + probe_ops(exprs)
@@ -524,11 +590,19 @@ def discover(cfg, rules_dir):
     badi = [i for i, o in enumerate(outs) if o[0] != "ok"]
     if badi:
         raise core.Inconclusive("clean run fails for %s at op %s" % (cfg_name(cfg), ops[badi[0]]))
-    files = hook_files(summ)
+    # fault targets: what the hook lists as loaded PLUS the textual include closure of the files the preferences select
+    files, untracked = reached_files(summ, rules_dir)
+    for tname, t in summ.items():
+        side = "braille" if tname == "Braille" else "speech"
+        for head in (t["pref_rule_file"], t["pref_unicode_short"], t["pref_unicode_full"], t["pref_definitions"]):
+            for f in include_closure(rules_dir, head):
+                if f not in first_call and head in first_call:
+                    first_call[f] = first_call[head]          # an included file is read by the call that reads its head file
     files["prefs.yaml"] = ["prefs"]
     first_call["prefs.yaml"] = 0
     return {"cfg": cfg, "exprs": exprs, "outs": outs, "hook": summ, "files": files, "first_call": first_call,
-            "n_init": len(init_ops(cfg, rules_dir)), "probe_chars": chars, "sentinel": sentinel}
+            "n_init": len(init_ops(cfg, rules_dir)), "probe_chars": chars, "sentinel": sentinel,
+            "included_but_not_tracked": untracked}
 
 
 # ------------------------------------------------------------------------------------------------------------------
@@ -921,6 +995,8 @@ def scenarios_for(base, tier, rng):
             params = [rng.random() for _ in range(n_params)] if positional else [0.0]
             if positional and kind in ("trunc-boundary", "trunc-mid") and tier == "thorough":
                 params += [0.0, 0.999]
+            if kind == "trunc-boundary" and tier == "quick":
+                params.append(0.0)      # keep only the first item: the loadable damage with the largest effect on the outputs
             for p in params:
                 for order in ORDERS:
                     if tier == "quick" and order not in ("fresh", "loaded") and rng.random() > 0.34:
@@ -969,6 +1045,7 @@ def run(tier, seed):
             pass
     extra = {"scenarios_planned": len(scen),
              "files_reached_per_configuration": {k: sorted(b["files"]) for k, b in bases.items()},
+             "included_by_text_but_not_tracked_by_library": {k: b.get("included_but_not_tracked", []) for k, b in bases.items()},
              "probe_expressions": {k: len(b["exprs"]) for k, b in bases.items()},
              "probe_characters": {k: "".join(b["probe_chars"]) for k, b in bases.items()},
              "fault_kinds": FAULT_KINDS, "orders": ORDERS, "rules_dir_faults": DIR_KINDS}
